@@ -23,7 +23,7 @@ impl Val {
             VT::F32 => Val::F32(0),
             VT::F64 => Val::F64(0),
             VT::V128 => Val::V128(0),
-            VT::FuncRef | VT::ExternRef => Val::Ref(None),
+            VT::FuncRef | VT::ExternRef | VT::AnyRef => Val::Ref(None),
         }
     }
 }
@@ -190,6 +190,7 @@ impl<'a> Instance<'a> {
                 ConstE::RefFunc(f) => Val::Ref(Some(*f)),
                 ConstE::RefNull(_) => Val::Ref(None),
                 ConstE::ExtAdd(a, b) => Val::I32(a.wrapping_add(*b)),
+                ConstE::StructNew(..) => return Err("GC aggregate initialisers are not executed".into()),
             });
         }
         for t in &m.memories {
